@@ -15,15 +15,32 @@ static fixed_t fx(i128 v){ return as_fixed((int64_t)v); }
 // through the public `sqrt` is not possible (the back-end is chosen by macro), so the back-end specific
 // variants are obtained by compiling this harness twice (with and without FIXEDMATH_ENABLE_SQRT_ABACUS_ALGO)
 // and only the variant matching the build answers `:ab` / `:std`; `:dflt` answers in every build.
-#if defined(FIXEDMATH_ENABLE_SQRT_ABACUS_ALGO) && __cplusplus < 202000L
-static const char* const this_be = "ab";
-#else
-static const char* const this_be = "std";   // run time: std::sqrt (C++20 dispatcher selects it outside constant evaluation)
+// Which algorithm `sqrt()` runs at run time is decided by the toolchain as well as by the flags (clang++ 14 with
+// -std=c++2b and libstdc++ 12 answers std::is_constant_evaluated() with true at run time and runs the abacus
+// algorithm), so it is probed: arguments on which the two algorithms differ, passed through a volatile.
+static const char* probe_backend()
+  {
+#ifndef FM_NO_DETAIL
+  static volatile long long probes[] = { 196608, 327680, 3221225472LL, 5497558151161LL };
+  for(long long p : probes)
+    {
+    fixed_t x = as_fixed((int64_t)p);
+    auto a = detail::sqrt_abacus(x).v; auto s = detail::sqrt_std_math(x).v; auto r = sqrt(x).v;
+    if(a != s) return r == a ? "ab" : "std";
+    }
 #endif
+#if defined(FIXEDMATH_ENABLE_SQRT_ABACUS_ALGO) && __cplusplus < 202000L
+  return "ab";
+#else
+  return "std";
+#endif
+  }
+static const char* const this_be = probe_backend();
 
 bool detail_op(const std::string& fn, const std::string& tag, const std::vector<i128>& a)
   {
   size_t n = a.size();
+  if(fn=="sqrt_backend" && n==0){ std::printf("ok %d\n", this_be[0]=='a' ? 1 : 0); return true; }
   if(tag=="ab" || tag=="std" || tag=="dflt")
     {
     if(tag!="dflt" && tag!=this_be) { std::puts("skip"); return true; }
